@@ -470,6 +470,20 @@ pub fn run_op2(toks: &[&str]) -> String {
             let (c, ro, rl, lo, rg, img) = (parse_comp(c), unhex_u64(ro), unhex_u64(rl), unhex_u64(lo), parse_range(rg), unhex_bytes(img));
             guard(|| rdirs(asy, c, ro, rl, lo, rg, &img).map(|m| tiles_tok(&m)))
         }
+        ["slook", c, ro, rl, lo, id, img] => {
+            // the harness's independent specification reader (spec.rs), on the same directory tree
+            let (c, ro, rl, lo, id, img) = (parse_comp(c), unhex_u64(ro), unhex_u64(rl), unhex_u64(lo), unhex_u64(id), unhex_bytes(img));
+            let h = crate::spec::SHeader {
+                root_off: ro, root_len: rl, meta_off: 0, meta_len: 0, leaf_off: lo, leaf_len: 0, data_off: 0, data_len: 0,
+                addressed: 0, entries: 0, contents: 0, clustered: false, icomp: comp_code(c) as u8, tcomp: 0, ttype: 0,
+                minz: 0, maxz: 0, coords: [0; 6], cz: 0,
+            };
+            match crate::spec::lookup(&img, &h, id) {
+                Ok(None) => "ok none".to_string(),
+                Ok(Some((o, l))) => format!("ok {o:x}:{l:x}"),
+                Err(_) => "err".to_string(),
+            }
+        }
         ["io_read_exact", mode, n, pos, sched, img] => {
             use crate::streams::{AsyncStream, Core, Schedule, SyncStream};
             let (n, pos, sched, img) = (unhex_u64(n) as usize, unhex_u64(pos), parse_nums(sched), unhex_bytes(img));
